@@ -8,8 +8,12 @@ from __future__ import annotations
 
 import threading
 
-from . import c09, fixtures as F, libmap, refcodec as R, tcpnet
+from . import c09, fixtures as F, inject, libmap, refcodec as R, tcpnet
 from .common import rng
+
+
+ACCEPT_PATH = ['pynetdicom2.asceprovider.AssociationAcceptor.accept',
+               'pynetdicom2.asceprovider.AssociationAcceptor._establish']
 
 
 def run_case(res, case, attempt=0):
@@ -18,14 +22,25 @@ def run_case(res, case, attempt=0):
     r = rng(seed, 'c09-tcp', i)
     served_mask, ts_mask = r.randrange(1, 8), r.randrange(1, 16)
     served = [c09.CLASSES[k] for k in range(3) if served_mask >> k & 1]
-    supported = [c09.TSS[k] for k in range(4) if ts_mask >> k & 1]
+    TSS = list(c09.TSS)
+    r2 = rng(seed, 'c09-tcp-universe', i)
+    if r2.random() < 0.35:
+        # one transfer syntax of the universe is a standard one that pydicom's dictionary does not
+        # know (HTJ2K, JPEG XL), or a private one
+        TSS[r2.randrange(2, 4)] = r2.choice([b'1.2.840.10008.1.2.4.201', b'1.2.840.10008.1.2.4.110',
+                                             b'1.2.826.0.1.3680043.9.7433.1.2'])
+        res.count('sim.transfer-syntax-unknown-to-pydicom')
+    # the image class is received into files (the decoder needs the context table for the first
+    # message already), and the first request follows the reply at once
+    in_file = r2.random() < 0.5
+    supported = [TSS[k] for k in range(4) if ts_mask >> k & 1]
     n = r.choice([1, 2, 3, 5])
     ids = r.sample(range(1, 256, 2), n)
     contexts = []
     for cid in ids:
         a, tl = c09.CONTEXT_CHOICES[r.randrange(len(c09.CONTEXT_CHOICES))]
         abstract = c09.STRANGER if a == 3 else c09.CLASSES[a]
-        contexts.append((cid, abstract, tuple(c09.TSS[t] for t in c09.TS_LISTS[tl])))
+        contexts.append((cid, abstract, tuple(TSS[t] for t in c09.TS_LISTS[tl])))
     extra = sorted(r.sample(range(len(c09.EXTRAS)), r.choice([0, 1, 2, 3])))
     ident = [e for e in extra if c09.EXTRAS[e]['type'] == 0x58]
     extra = [e for e in extra if e not in ident[1:]]
@@ -44,12 +59,20 @@ def run_case(res, case, attempt=0):
     def service(asce, ctx, msg):
         with lock:
             calls.append((ctx.id, str(ctx.sop_class), str(ctx.supported_ts)))
-        rsp = dimsemessages.CEchoRSPMessage()
+        if msg.command_field == 0x0001:
+            rsp = dimsemessages.CStoreRSPMessage()
+            rsp.affected_sop_instance_uid = msg.affected_sop_instance_uid
+            if hasattr(msg.data_set, 'close'):
+                msg.data_set.close()
+        else:
+            rsp = dimsemessages.CEchoRSPMessage()
         rsp.message_id_being_responded_to = msg.message_id
         rsp.sop_class_uid = msg.sop_class_uid
         rsp.status = 0
         asce.send(rsp, ctx.id)
     service.sop_classes = [s.decode() for s in served]
+    if in_file:
+        service.store_in_file = True
 
     class Server(tcpnet.TapServerMixin, applicationentity.AE):
         pass
@@ -62,7 +85,9 @@ def run_case(res, case, attempt=0):
     reply = None
     answered = {}
     rejected_probe = None
-    with tcpnet.instrument(net):
+    inj = {}
+    with tcpnet.instrument(net), inject.line_delays(ACCEPT_PATH, seed=seed * 7 + i, delays=(0.0, 0.001, 0.004),
+                                                    stats=inj):
         try:
             server = Server('TCPSCP', 0, supported_ts=[t.decode() for t in supported])
             server.net = net
@@ -78,9 +103,18 @@ def run_case(res, case, attempt=0):
                             abstract = [a for c, a, t in contexts if c == item['id']]
                             if not abstract:
                                 continue
-                            peer.send_dimse(item['id'], {R.TAG_AFFECTED_SOP_CLASS: abstract[0].decode(),
-                                                         R.TAG_COMMAND_FIELD: 0x0030,
-                                                         R.TAG_MESSAGE_ID: item['id']})
+                            if abstract[0] == c09.CLASSES[1]:
+                                # an image: a request with a data set
+                                peer.send_dimse(item['id'], {
+                                    R.TAG_AFFECTED_SOP_CLASS: abstract[0].decode(), R.TAG_COMMAND_FIELD: 0x0001,
+                                    R.TAG_MESSAGE_ID: item['id'], R.TAG_PRIORITY: 0,
+                                    R.TAG_AFFECTED_SOP_INSTANCE: '1.2.826.9.%d.%d' % (i, item['id'])},
+                                    b'\x08\x00\x18\x00\x04\x00\x00\x00' + b'1.2\x00')
+                                res.count('sim.first-request-carries-a-data-set')
+                            else:
+                                peer.send_dimse(item['id'], {R.TAG_AFFECTED_SOP_CLASS: abstract[0].decode(),
+                                                             R.TAG_COMMAND_FIELD: 0x0030,
+                                                             R.TAG_MESSAGE_ID: item['id']})
                             got = peer.recv_dimse()
                             answered[item['id']] = got if isinstance(got, dict) else (got[0], got[1].get(
                                 R.TAG_MESSAGE_ID_RSP))
@@ -110,6 +144,7 @@ def run_case(res, case, attempt=0):
             error = exc
     tcpnet.wait_quiet(0, 3.0)
     res.count('oracle.tcp-sample')
+    res.count('inject.lines-delayed', inj.get('hits', 0))
     if error is not None:
         import socket
         if isinstance(error, (socket.timeout, TimeoutError)) and attempt < 2:
